@@ -114,6 +114,45 @@ Theorem C16_traffic_totals_reported_once :
 Proof. intros base ts sched H1 s H2. exact (traffic_totals_reported_once base ts sched H1 H2). Qed.
 Print Assumptions C16_traffic_totals_reported_once.
 
+(* client side of "reports traffic totals once": the mapping handler's reportStats (repository: Swap(0), upload, roll back on
+   failure), one counter.  ANY number of reporters (30 s ticks, the final report of the clean-up handler; each upload may
+   fail) and of tunnels adding their totals, ANY schedule: what has been uploaded never exceeds what was counted (no byte
+   twice), the local counter is never negative, and once every thread has finished uploaded + still-local = counted. *)
+Theorem C16_mapping_stats_conserved :
+  forall (ts : list kpc) (sched : list nat),
+  forallb k_initial ts = true ->
+  let s := run _ _ (kstep true) (kinit, ts) sched in
+  (k_up (fst s) <= k_added (fst s))%Z /\ (0 <= k_cnt (fst s))%Z /\
+  (forallb k_finished (snd s) = true -> (k_up (fst s) + k_cnt (fst s) = k_added (fst s))%Z).
+Proof. intros ts sched H. exact (stats_conserved_all_schedules ts sched H). Qed.
+Print Assumptions C16_mapping_stats_conserved.
+
+(* load, upload, subtract on success: the periodic report and the final report both load the same 1000 bytes *)
+Theorem C16_stats_load_subtract_refuted :
+  exists sched,
+    let s := run _ _ (kstep false) (kinit, [KAdd [1000%Z]; KTake false; KTake false]) sched in
+    forallb k_finished (snd s) = true /\ k_added (fst s) = 1000%Z /\ k_up (fst s) = 2000%Z /\ k_cnt (fst s) = (-1000)%Z.
+Proof. exact stats_load_subtract_refuted. Qed.
+Print Assumptions C16_stats_load_subtract_refuted.
+
+(* Bridge.cleanup's final report against a statistics backend that does not answer (repository: helper goroutine + 5 s
+   timer).  System [closer; report helper; timer; backend]; after ANY schedule — in particular one in which the backend thread
+   never runs — letting the timer fire and the closer take three more steps ends the clean-up: Close returns. *)
+Theorem C16_guarded_final_report_close_completes :
+  forall pre : list nat,
+  let s := run _ _ (lstep true) (linit, [LSpawn; LReport; LTimer; LBackend]) pre in
+  nth_error (snd (run _ _ (lstep true) s [2; 0; 0; 0])) 0 = Some LDone.
+Proof. intros pre. exact (guarded_final_report_close_completes pre). Qed.
+Print Assumptions C16_guarded_final_report_close_completes.
+
+(* the synchronous final report: the backend never answers, the timer fires in vain, nothing ever moves again *)
+Theorem C16_unguarded_final_report_refuted :
+  exists pre,
+    let s := run _ _ (lstep false) (linit, [LSpawn; LReport; LTimer]) pre in
+    snd s = [LWait; LReport; LTimerFired] /\ (forall sched, run _ _ (lstep false) s sched = s).
+Proof. exact unguarded_final_report_refuted. Qed.
+Print Assumptions C16_unguarded_final_report_refuted.
+
 (* the pinned reportTrafficStats: cleanup handler and final report compute the same delta: 100 bytes reported as 200 *)
 Theorem C16_pinned_traffic_double_report_refuted :
   exists sched,
